@@ -10,6 +10,7 @@ the variants `vs`; where the pinned behaviour breaks the property the hypothesis
 -/
 import Olla.Model.Routing
 import Olla.Spec.C09
+import Olla.Spec.State
 
 namespace Olla.Props.C09
 open Olla.Gen.Routing Olla.Model.Routing Olla.Spec.C09
@@ -716,5 +717,14 @@ example : (route allFixed strategyDiscovery fallbackNone true .getHealthyFailed 
 example : soundConfig strategyDiscovery fallbackNone = true ∧ soundConfig strategyOptimistic fallbackAll = false := by decide
 example : (handle allFixed .proxy strategyStrict "" false [0] [1]).status = 503 := by decide
 example : (handle allFixed .provider strategyOptimistic fallbackAll false [0, 2] [1]).forwardTo = [0, 2] := by decide
+
+/-! ### tie: no process-wide state on the modelled path
+
+The theorems above are about single calls (or the history of one object). They cover every
+request of a running process only if a call reaches no state that outlives it besides that
+object. `Olla.Gen.State` is re-read from the source on every run: the package-level variables
+reachable from each function inside its package that the package changes after initialisation. -/
+theorem C09_tie_no_process_wide_state :
+    Olla.Spec.State.reachesOnly "health.Check" [] = true := by decide
 
 end Olla.Props.C09
